@@ -197,6 +197,16 @@ class Desugar(ast.NodeTransformer):
                 if isinstance(s, ast.Return):
                     return self._block([ast.copy_location(ast.If(test=test, body=[a], orelse=[]), s), b])
                 return self._block([ast.copy_location(ast.If(test=test, body=[a], orelse=[b]), s)])
+        # `xs.extend(E for v in it)` -> `for v in it: xs.append(E)`
+        if isinstance(s, ast.Expr) and isinstance(s.value, ast.Call) and isinstance(s.value.func, ast.Attribute) and s.value.func.attr == "extend" \
+                and isinstance(s.value.func.value, ast.Name) and len(s.value.args) == 1 and not s.value.keywords \
+                and isinstance(s.value.args[0], (ast.ListComp, ast.GeneratorExp)):
+            c = s.value.args[0]
+            lst = s.value.func.value.id
+            if _targets_ok(c.generators, self.outside) is not None and not any(isinstance(x, ast.Name) and x.id == lst for x in ast.walk(c)):
+                step = ast.copy_location(ast.Expr(value=ast.Call(func=ast.Attribute(value=ast.Name(id=lst, ctx=ast.Load()), attr="append", ctx=ast.Load()),
+                                                                 args=[c.elt], keywords=[])), s)
+                return self._loops(c.generators, [step], s)
         # comprehensions ------------------------------------------------------------------
         if isinstance(s, ast.Assign) and len(s.targets) == 1 and isinstance(s.targets[0], ast.Name):
             r = self._expand(s.targets[0].id, s.value, s)
